@@ -472,6 +472,138 @@ theorem exactDiffs_of_isF32 (x : List Val) (t : List ℚ) (N : Nat)
   | none => rfl
   | some dx => simp only [decide_eq_true_eq]; exact rndF32_fix _ (hx i k hik hk dx hv)
 
+/-! ### rescaling by a power of two commutes with the rounding (no underflow) -/
+
+theorem lg_unique (a : ℚ) (ha : 0 < a) (m : Int) (h1 : pow2 m ≤ a) (h2 : a < pow2 (m + 1)) :
+    lg a = m := by
+  obtain ⟨s1, s2⟩ := lg_spec a ha
+  have u1 : pow2 (lg a) < pow2 (m + 1) := lt_of_le_of_lt s1 h2
+  have u2 : pow2 m < pow2 (lg a + 1) := lt_of_le_of_lt h1 s2
+  rw [pow2_lt_iff] at u1 u2
+  omega
+
+theorem lg_scale (a : ℚ) (ha : 0 < a) (k : Int) : lg (pow2 k * a) = lg a + k := by
+  obtain ⟨s1, s2⟩ := lg_spec a ha
+  have hk := pow2_pos k
+  apply lg_unique _ (mul_pos hk ha)
+  · rw [add_comm, pow2_add]; exact mul_le_mul_of_nonneg_left s1 (le_of_lt hk)
+  · rw [show lg a + k + 1 = k + (lg a + 1) by ring, pow2_add]
+    exact mul_lt_mul_of_pos_left s2 hk
+
+theorem rndPos_scale (a : ℚ) (ha : 0 < a) (k : Int) (h1 : -126 ≤ lg a) (h2 : -126 ≤ lg a + k) :
+    rndPos (pow2 k * a) = pow2 k * rndPos a := by
+  have e1 : expOf a = lg a - 23 := by unfold expOf; split <;> omega
+  have e2 : expOf (pow2 k * a) = expOf a + k := by
+    unfold expOf; rw [lg_scale a ha k]; split <;> split <;> omega
+  have hk := pow2_pos k
+  have he := pow2_pos (expOf a)
+  simp only [rndPos, e2]
+  have : pow2 k * a / pow2 (expOf a + k) = a / pow2 (expOf a) := by
+    rw [pow2_add]; field_simp
+  rw [this, pow2_add]; ring
+
+/-- **`rndF32 (2^k · q) = 2^k · rndF32 q`** as long as neither side is subnormal: rescaling the
+values or the time unit by a power of two changes no rounding decision -/
+theorem rndF32_scale (q : ℚ) (k : Int) (h1 : q ≠ 0 → -126 ≤ lg |q|)
+    (h2 : q ≠ 0 → -126 ≤ lg |q| + k) : rndF32 (pow2 k * q) = pow2 k * rndF32 q := by
+  have hk := pow2_pos k
+  rcases lt_trichotomy q 0 with h | h | h
+  · have hq : |q| = -q := abs_of_neg h
+    rw [hq] at h1 h2
+    have hn : pow2 k * q < 0 := mul_neg_of_pos_of_neg hk h
+    rw [rndF32_of_neg _ hn, rndF32_of_neg q h]
+    have : -(pow2 k * q) = pow2 k * (-q) := by ring
+    rw [this, rndPos_scale (-q) (by linarith) k (h1 (ne_of_lt h)) (h2 (ne_of_lt h))]
+    ring
+  · rw [h, mul_zero, rndF32_zero, mul_zero]
+  · have hq : |q| = q := abs_of_pos h
+    rw [hq] at h1 h2
+    rw [rndF32_pos _ (mul_pos hk h), rndF32_pos q h,
+      rndPos_scale q h k (h1 (ne_of_gt h)) (h2 (ne_of_gt h))]
+
+/-! ### rounded slopes of a series rescaled by powers of two -/
+
+/-- neither `q` nor `2^k q` is subnormal -/
+def NoUfl (q : ℚ) (k : Int) : Prop := (q ≠ 0 → -126 ≤ lg |q|) ∧ (q ≠ 0 → -126 ≤ lg |q| + k)
+
+theorem valAt_map (f : ℚ → ℚ) (x : List Val) (k : Nat) :
+    valAt (x.map (Option.map f)) k = (valAt x k).map f := by
+  simp only [valAt, List.getElem?_map]
+  cases x[k]? with
+  | none => rfl
+  | some v => cases v <;> rfl
+
+theorem getD_map_mul (p : ℚ) (t : List ℚ) (k : Nat) :
+    (t.map (p * ·)).getD k 0 = p * t.getD k 0 := by
+  simp only [List.getD, List.getElem?_map]
+  cases t[k]? <;> simp
+
+/-- the rounded slope of the rescaled series is the rescaled rounded slope (no underflow) -/
+theorem slopeValR_scale (x : List Val) (t : List ℚ) (a c : Int) (i k : Nat)
+    (hdt : NoUfl (t.getD k 0 - t.getD i 0) c)
+    (hdx : ∀ dx, vsub (valAt x k) (valAt x i) = some dx →
+      NoUfl dx a ∧ NoUfl (rndF32 dx / rndF32 (t.getD k 0 - t.getD i 0)) (a - c)) :
+    slopeValR rndF32 (x.map (Option.map (pow2 a * ·))) (t.map (pow2 c * ·)) i k
+      = (slopeValR rndF32 x t i k).map (pow2 (a - c) * ·) := by
+  simp only [slopeValR, valAt_map, getD_map_mul]
+  have hc := pow2_pos c
+  cases hk : valAt x k with
+  | none => simp [vsub]
+  | some xk =>
+    cases hi : valAt x i with
+    | none => simp [vsub]
+    | some xi =>
+      obtain ⟨h1, h2⟩ := hdx (xk - xi) (by rw [hk, hi]; rfl)
+      simp only [vsub, Option.map_some, Option.some.injEq]
+      rw [← mul_sub, ← mul_sub, rndF32_scale _ a h1.1 h1.2, rndF32_scale _ c hdt.1 hdt.2]
+      have e : pow2 a * rndF32 (xk - xi) / (pow2 c * rndF32 (t.getD k 0 - t.getD i 0))
+          = pow2 (a - c) * (rndF32 (xk - xi) / rndF32 (t.getD k 0 - t.getD i 0)) := by
+        have : pow2 a = pow2 (a - c) * pow2 c := by rw [← pow2_add]; congr 1; ring
+        rw [this]; field_simp
+      rw [e, rndF32_scale _ (a - c) h2.1 h2.2]
+
+/-- the comparison of two rounded slopes seen from `i` is unchanged by the rescaling -/
+theorem slopeCmpR_scale (x : List Val) (t : List ℚ) (a c : Int) (i k j : Nat)
+    (hk : NoUfl (t.getD k 0 - t.getD i 0) c)
+    (hkx : ∀ dx, vsub (valAt x k) (valAt x i) = some dx →
+      NoUfl dx a ∧ NoUfl (rndF32 dx / rndF32 (t.getD k 0 - t.getD i 0)) (a - c))
+    (hj : NoUfl (t.getD j 0 - t.getD i 0) c)
+    (hjx : ∀ dx, vsub (valAt x j) (valAt x i) = some dx →
+      NoUfl dx a ∧ NoUfl (rndF32 dx / rndF32 (t.getD j 0 - t.getD i 0)) (a - c)) :
+    vlt (slopeValR rndF32 (x.map (Option.map (pow2 a * ·))) (t.map (pow2 c * ·)) i k)
+        (slopeValR rndF32 (x.map (Option.map (pow2 a * ·))) (t.map (pow2 c * ·)) i j)
+      = vlt (slopeValR rndF32 x t i k) (slopeValR rndF32 x t i j) := by
+  rw [slopeValR_scale x t a c i k hk hkx, slopeValR_scale x t a c i j hj hjx]
+  exact vlt_scale (pow2 (a - c)) (pow2_pos _) _ _
+
+/-! ### the float64 → float32 conversion and the order of the samples -/
+
+/-- the conversion keeps distinct samples apart -/
+def KeepsApart (x : List Val) : Prop :=
+  ∀ a b : ℚ, some a ∈ x → some b ∈ x → rndF32 a = rndF32 b → a = b
+
+/-- a monotone rounding that merges no two samples preserves every comparison between them -/
+theorem ordOn_rndF32 (x : List Val) (h : KeepsApart x) : OrdOn rndF32 x := by
+  intro u hu v hv
+  cases u with
+  | none => simp [vlt]
+  | some a =>
+    cases v with
+    | none => simp [vlt]
+    | some b =>
+      simp only [vlt, Option.map_some]
+      rw [decide_eq_decide]
+      constructor
+      · intro hlt
+        by_contra hc
+        have := rndF32_monoRnd b a (not_lt.mp hc)
+        exact absurd hlt (not_lt.mpr this)
+      · intro hlt
+        have h1 := rndF32_monoRnd a b (le_of_lt hlt)
+        rcases lt_or_eq_of_le h1 with h2 | h2
+        · exact h2
+        · exact absurd (h a b hu hv h2) (ne_of_lt hlt)
+
 /-- integer samples of magnitude below `2^23` (present samples only) -/
 def IntSeries (x : List Val) : Prop :=
   ∀ r : ℚ, some r ∈ x → ∃ z : Int, r = (z : ℚ) ∧ |z| < 2 ^ 23
